@@ -34,7 +34,6 @@ import logging
 import os
 import subprocess
 import sys
-import traceback
 
 import gin
 from gin import config as gc
